@@ -143,6 +143,17 @@ Theorem C13_set_independent :
 Proof. exact set_fixed_independent. Qed.
 Print Assumptions C13_set_independent.
 
+(* Set with a caller-supplied destination: every previous content of the
+   destination (nil, zero, all ones, an earlier encoding of other values),
+   every argument (ill-formed included), every input list: the outcome —
+   value, error or panic — is that of Set on a fresh destination; so the wires
+   of a short / nil array or of a shorter slice never keep earlier bits, and
+   with C13_set_eq_parse the reused form equals Parse of the text as well *)
+Theorem C13_set_ignores_previous_content :
+  forall prev io inputs, set_into prev io inputs = set io inputs.
+Proof. exact set_into_now_ignores_prev. Qed.
+Print Assumptions C13_set_ignores_previous_content.
+
 (* Set on EVERY argument (nested, ill-formed Infos, any Go values, any start
    offset): it only writes at or above its offset, so nothing written later
    disturbs the wires below *)
